@@ -444,9 +444,15 @@ def parse_dump(text):
                     ret = ret[:-1].strip() if ret.endswith("{") else ret
                     funcs[name] = Func(name, params, ret, body)
             elif ln.startswith("const "):
-                m = re.match(r"const (.+?): (.+) = \{$", ln)
-                if m:
-                    consts[m.group(1)] = Func(m.group(1), [], m.group(2), body)
+                s = ln[6:]
+                k = 0
+                while True:
+                    k = skip_balanced(s, k, ":")
+                    if k >= len(s) or (s[k + 1:k + 2] == " " and s[k - 1] != ":"):
+                        break
+                    k += 2 if s[k + 1:k + 2] == ":" else 1
+                if k < len(s):
+                    consts[s[:k]] = Func(s[:k], [], s[k + 2:].rsplit(" = {", 1)[0], body)
             i = j + 1
         else:
             i += 1
